@@ -485,6 +485,12 @@ var verifNonsense = []verifCLICase{
 	{2, "- values: [\"1\"]\n", []string{"--velocity", "xx"}}, {2, "- values: [\"1\"]\n", []string{"--meter", "0/0"}}, {2, "- values: [\"1\"]\n", []string{"--key", "H"}},
 	{2, "- values: [\"1\"]\n", []string{"--track", "0"}}, {2, "- values: [\"1\"]\n", []string{"--key", "Abm"}}, {2, "- values: [\"1\"]\n  meta: 7\n", nil},
 	{3, "- values: []\n", nil}, {3, "- values: [\"1\"]\n  key: Fb\n", nil},
+	// settings a MIDI file cannot state: a tempo whose 60,000,000/bpm does not fit the 24-bit
+	// field (or rounds to 0), a meter whose numerator does not fit a byte or whose denominator
+	// is not a power of two — refused, never written as some other tempo / meter
+	{2, "- values: [\"1\"]\n  bpm: 3\n", nil}, {2, "- values: [\"1\"]\n", []string{"--bpm", "2"}}, {2, "- values: [\"1\"]\n  bpm: 60000001\n", nil},
+	{2, "- values: [\"1\"]\n  meter: 5/6\n", nil}, {2, "- values: [\"1\"]\n  meter: 256/4\n", nil}, {2, "- values: [\"1\"]\n", []string{"--meter", "4/3"}}, {2, "- values: [\"1\"]\n  meter: 4/256\n", nil},
+	{0, "C[1]{bpm=1}", nil}, {0, "C[1]{mtr=7/12}", nil},
 	// an instance that is not there at all (YAML null in the list)
 	{2, "- ~\n", nil}, {2, "- values: [\"1\"]\n- null\n", nil}, {3, "- values: [\"1\"]\n-\n- values: [\"1\"]\n", nil},
 	{4, "C[1] ]", nil}, {4, "{", nil}, {4, "C_[1]", nil},
@@ -650,6 +656,13 @@ func VerifC07BPMFlag() {
 	perr := writeCmd.ParseFlags([]string{"--bpm", txt})
 	vf.Assert("flag-parses", perr == nil)
 	got, err := newWriteCmdArgs(writeCmd, []string{in})
+	if want >= 1 && want <= 3 {
+		// a tempo a MIDI file cannot state (60,000,000/bpm exceeds 24 bits): refused
+		vf.Assert("unstatable-tempo-flag-is-refused", err != nil)
+		vf.Reach("flag-given")
+		vf.Reach("end")
+		return
+	}
 	vf.Assert("document-loads", err == nil && got != nil && len(got.instances) == 3)
 	if err != nil || got == nil {
 		return
